@@ -102,7 +102,7 @@ __CPROVER_ensures(gh_sent_features == __CPROVER_old(gh_sent_features) + 1)
    password checker approves for exactly that user and password"):
      PLAIN      never says Succeeded itself; it says InputNeeded and the checker's reply decides (onPasswordReply)        [verified: plainRespond]
      DIGEST-MD5 says Succeeded only after a step that compared the client's response with a digest of the checker's secret
-                (passwordDigest, handed over by onDigestReply from the getDigest reply)                                  [assumed, arithmetic not verified]
+                (passwordDigest, handed over by onDigestReply from the getDigest reply)                                  [verified: digestRespond, term model]
      ANONYMOUS  says Succeeded at once, names no user, never involves the checker                                         [verified: anonymousRespond]
    so a Succeeded authenticates a user only when it comes from a mechanism that is backed by the checker's secret. */
 #define MECH_KNOWN(m) ((m) == S("PLAIN") || (m) == S("DIGEST-MD5") || (m) == S("ANONYMOUS"))
@@ -128,7 +128,9 @@ __CPROVER_ensures(self->mechanism == S("PLAIN") ==> __CPROVER_return_value != RE
 __CPROVER_ensures(self->mechanism == S("ANONYMOUS") ==> ((__CPROVER_return_value == RESP_Succeeded ? __CPROVER_old(self->m_step) == 0 : __CPROVER_return_value == RESP_Failed) &&
                   self->m_step >= 1 && self->username == __CPROVER_old(self->username) && self->password == __CPROVER_old(self->password)))
 __CPROVER_ensures(gh_respond_old_step == __CPROVER_old(self->m_step) && gh_respond_request == request)
-/* DIGEST-MD5 (assumed from QXmppSaslServerDigestMd5::respond, src/base/QXmppSasl.cpp:1406-1466; its arithmetic is not verified):
+/* DIGEST-MD5: these clauses restate postconditions VERIFIED on the real QXmppSaslServerDigestMd5::respond in the byte-term model
+   (digestRespond.spec: nonce never overwritten, step 1 passes only for the RFC 2831 response over the stored secret and the issued nonce,
+   step 1 reaches step 2 exactly when it passes, input needed without password and digest, Succeeded exactly from step 2, nothing else changes):
    step 0 issues the nonce challenge; step 1 parses the client's response, asks for input while it has neither a password nor a digest,
    otherwise verifies the response against the secret digest (the stored passwordDigest when no password is set) and only then goes to
    step 2 with Challenge(rspauth); step 2 says Succeeded; later steps fail.  It never sets a password and never goes back a step. */
@@ -185,8 +187,11 @@ void Sasl2_Response_fromDom(OptSasl2Response *_ret, qdom el) __CPROVER_assigns(*
 void Sasl2_Abort_fromDom(OptSasl2Abort *_ret, qdom el) __CPROVER_assigns(*_ret) __CPROVER_ensures(1);
 void Sasl_Auth_fromDom(OptSaslAuth *_ret, qdom el) __CPROVER_assigns(*_ret) __CPROVER_ensures(1);
 void Sasl_Response_fromDom(OptSaslResponse *_ret, qdom el) __CPROVER_assigns(*_ret) __CPROVER_ensures(1);
-bool QXmppBindIq_isBindIq(qdom el) __CPROVER_assigns() __CPROVER_ensures(1);
-bool isIqType(qdom el, qstr tag, qstr xmlns) __CPROVER_assigns() __CPROVER_ensures(1);
+/* the two predicates are functions of the element (asked twice, they answer the same) */
+bool __CPROVER_uninterpreted_is_bind_iq(qdom el);
+bool __CPROVER_uninterpreted_is_iq_type(qdom el, qstr tag, qstr xmlns);
+bool QXmppBindIq_isBindIq(qdom el) __CPROVER_assigns() __CPROVER_ensures(__CPROVER_return_value == __CPROVER_uninterpreted_is_bind_iq(el));
+bool isIqType(qdom el, qstr tag, qstr xmlns) __CPROVER_assigns() __CPROVER_ensures(__CPROVER_return_value == __CPROVER_uninterpreted_is_iq_type(el, tag, xmlns));
 void QXmppBindIq_parse(QXmppIq *self, qdom el) __CPROVER_assigns(*self) __CPROVER_ensures(1);
 #define DEFAULT_LENGTH_ARGUMENT (-1)
 qstr QXmppUtils_generateStanzaHash(int length) __CPROVER_assigns() __CPROVER_ensures(1);
